@@ -45,6 +45,10 @@ func c16(r *Report) {
 	}
 
 	r.Guard("C16.R1", "whoever reads the snapshot body in har removes the transfer coding the snapshot keeps", func() {
+		for _, n := range []string{"NewRequest", "NewResponse", "postData", "Logger.RecordRequest", "Logger.RecordResponse"} {
+			errorsReturnedRule(r, r.W.Fn("har", n), false)
+		}
+
 		for _, f := range w.Funcs("har") {
 			for _, c := range plainCalls(f, "(*M/messageview.MessageView).BodyReader") {
 				r.Touch(f)
@@ -202,6 +206,45 @@ func c16(r *Report) {
 	})
 
 	r.Guard("C16.R2", "the entry's fields are taken from the corresponding parts of the message", func() {
+		// the logged body is exactly what was read from the decoded body reader: text
+		// and size come from the slice ReadAll returned (a buffer sized from a header and
+		// filled by a read whose count is ignored invents bytes)
+		if nr := r.W.Fn("har", "NewResponse"); nr != nil {
+			for _, in := range instrs(nr) {
+				st, ok := in.(*ssa.Store)
+				if !ok {
+					continue
+				}
+				fa, ok := st.Addr.(*ssa.FieldAddr)
+				if !ok || (fieldObj(fa).Name() != "Text" && fieldObj(fa).Name() != "Size") || !strings.HasSuffix(fa.X.Type().String(), "har.Content") {
+					continue
+				}
+				okSrc := true
+				n := 0
+				for _, l := range resolveAll(st.Val) {
+					n++
+					if cv, isCv := l.(*ssa.Convert); isCv {
+						l = cv.X
+					}
+					if lc, isC := l.(*ssa.Call); isC {
+						if bi, isB := lc.Call.Value.(*ssa.Builtin); isB && bi.Name() == "len" {
+							l = lc.Call.Args[0]
+						}
+					}
+					sl := w.backSlice(l, flowOpt{})
+					if !anyIn(sl, func(v ssa.Value) bool {
+						return isExtractOfCall(v, "io/ioutil.ReadAll") || isExtractOfCall(v, "io.ReadAll")
+					}) {
+						okSrc = false
+					}
+					if anyIn(sl, func(v ssa.Value) bool { _, isMk := v.(*ssa.MakeSlice); return isMk }) {
+						okSrc = false
+					}
+				}
+				r.Decide("flow", "M/har.NewResponse: Content."+fieldObj(fa).Name()+" is what ReadAll returned", okSrc && n > 0, "derived from the result of ReadAll on the body reader", "the logged content does not come from the bytes actually read (a pre-sized buffer, a header value): text and size can differ from the decoded body", st.Pos())
+			}
+		}
+
 		type fm struct {
 			fn    *ssa.Function
 			typ   string
